@@ -788,14 +788,18 @@ func (ex *Exec) applyContract(fr *Frame, st *State, ct *Contract, fn *ssa.Functi
 		for i, rq := range ex.contract.AtCall[cname] {
 			env := mkEnv(st, ex.entry, false) // old() = the caller's entry state
 			// the callee's parameters by name, and behind them the caller's own parameters
+			// (callee parameters shadow them), and the caller's named locals that are live
 			merged := map[string]Value{}
 			for k, v := range fr.params {
 				merged[k] = v
 			}
 			for k, v := range cf.params {
 				merged[k] = v
+				env.vars[k] = v
 			}
-			env.fr = &Frame{fn: fr.fn, params: merged, named: map[string][]*Cell{}}
+			env.fr = &Frame{fn: fr.fn, params: merged, named: fr.named}
+			ex.callerParams = fr.params
+			env.useLocals = true
 			if fr.fn.Pkg != nil {
 				env.pkg = fr.fn.Pkg.Pkg
 			}
